@@ -371,7 +371,7 @@ def run_c17(ck):
     quick = ck.tier == "quick"
     rng = random.Random(ck.seed + 17)
     n = 900 if quick else 8000
-    progs = [genasm.gen_macro_program(rng) for _ in range(n)]
+    progs = [genasm.gen_macro_program(rng) for _ in range(n)] + genasm.depth_boundary_programs()
     # pinned inputs (known findings and regressions) are re-run on every run
     import glob, json, os
     for path in sorted(glob.glob(os.path.join(common.ROOT, "pinned", "C17", "*.json"))):
